@@ -115,16 +115,14 @@ def build_probes(rng, p, res, oracle, per_key=3, flavours=("string", "display", 
                     if not ok:
                         continue
 
-                    def env_for(flavour):
-                        def comp(k, inner):
-                            t = comp_tags.get(k, "?")
-                            return f'<span data-c="{t}">{inner}</span>'    # same markup in every flavour
-
-                        def cat(rule, c, l=eff):
-                            key = ("u:%d" % c) if c.denominator == 1 and c >= 0 else (("i:%d" % c) if c.denominator == 1 else "f:" + str(float(c)))
-                            return cats.get((l, rule, key), "other")
-                        return Env(var=lambda k, f: var_vals.get(k, "?"), comp=comp,
-                                   count=lambda k: count_value(count_of[k]) if k in count_of else 0, cat=cat)
+                    def env_for(flavour, eff=eff):
+                        from fractions import Fraction
+                        cat_tbl = {}
+                        for (ll, rule, key), f in cats.items():
+                            if ll == eff:
+                                cat_tbl[(rule, Fraction(key[2:]))] = f
+                        return Env(vars=var_vals, var_default=("?", ""), var_fmt=False, comp=('<span data-c="', '">', "</span>", ""), close_tag=False,
+                                   tags=comp_tags, counts={k: count_value(v) for k, v in count_of.items()}, count_default=0, cats=cat_tbl)
                     key_rs = ".".join(rust_ident(k) for k in path)
                     if ns is not None:
                         key_rs = rust_ident(ns) + "." + key_rs
